@@ -479,6 +479,10 @@ impl<C: Suite> Model for M13<C> {
 pub fn models(tier: Tier, seed: u64) -> Vec<Box<dyn DynModel>> {
     let mut v: Vec<Box<dyn DynModel>> = vec![bounded(M13::<Bls12381G1Impl>::new(tier, seed), 1), bounded(M13::<Bls12381G2Impl>::new(tier, seed), 1)];
     v.extend(crate::props::tsurf::models("C13", tier, seed));
+    v.extend(crate::props::mask::models("C13", seed));
+    // ciphertexts that are self-consistent for the pairing value of the identity signature (anybody can build them)
+    v.push(bounded(crate::props::c04::M04TL::<Bls12381G1Impl> { prop: "C13", seed, _c: PhantomData }, 1));
+    v.push(bounded(crate::props::c04::M04TL::<Bls12381G2Impl> { prop: "C13", seed, _c: PhantomData }, 1));
     v
 }
 
